@@ -145,7 +145,8 @@ def gen_value(rng, ftype):
     if ftype == "f":
         return "%d.%d" % (rng.randint(0, 99), rng.randint(0, 99))
     if ftype == "Color":
-        return rng.choice(COLORS + ["BAD"] if rng.random() < 0.15 else COLORS)
+        # BAD: the converter raises ValueError; WORSE: it raises KeyError (any exception is a conversion error)
+        return rng.choice(COLORS + ["BAD", "WORSE"] if rng.random() < 0.15 else COLORS)
     if ftype == "w":
         return "".join(rng.choice("ABCDEFGH") for _ in range(rng.randint(1, 4)))
     n = rng.randint(1, 2)
@@ -400,7 +401,9 @@ def gen_outline(rng, lib, sid, opts):
         d = by_id.get(st.get("def"))
         if d is not None and rng.random() < opts.get("p_step_placeholder", 0.3) and \
                 any(t[0] == "fld" and t[2] == "" for t in d["tokens"]) and d["matcher"] != "re":
-            st["text"] = instantiate(rng, d, placeholder=rng.choice(cols))
+            # (also the documented special placeholders of the row: <row.id>, <examples.name>, ...)
+            ph = rng.choice(cols) if rng.random() < 0.85 else rng.choice(["row.id", "examples.name", "row.index", "examples.index"])
+            st["text"] = instantiate(rng, d, placeholder=ph)
         if st.get("doc") is not None and rng.random() < 0.5:
             tail = "\n" if st["doc"].endswith("\n") else ""     # keep a final empty line final
             st["doc"] = st["doc"][:len(st["doc"]) - len(tail)] + \
@@ -431,6 +434,12 @@ def gen_outline(rng, lib, sid, opts):
             ci = ex["headings"].index(cols[0])
             for row in ex["rows"]:
                 row[ci] = "t%d" % rng.randint(0, 9)
+                if rng.random() < 0.3:
+                    # cells that are NOT tag-safe: the documented translation applies to the rendered tag
+                    # (alnum and ._-=:,;() kept, blanks become '_', everything else is dropped)
+                    row[ci] = rng.choice(["a/b%d", "x?y%d", "q[%d]", "w w%d", "c^%d", "m@n%d", u"ü-%d", "k\\%d"]) % rng.randint(0, 9)
+    if rng.random() < 0.12:
+        tags.append(rng.choice(["i_<row.id>", "n_<examples.name>", "e<examples.index>r<row.index>"]))
     name = "ol %s" % sid
     if rng.random() < 0.5:
         name += (" <%s>" if rng.random() < 0.8 else " > 5 for <%s>") % rng.choice(cols)
@@ -623,6 +632,18 @@ def substitute(text, headings, row):
     return text
 
 
+def tag_safe_name(text):
+    """The documented translation of a rendered tag (Tag.make_name docstring): alphanumerics and
+    . _ - = : , ; ( ) are kept, white space becomes '_', every other character is dropped."""
+    out = []
+    for ch in text:
+        if ch.isalnum() or ch in u"._-=:,;()":
+            out.append(ch)
+        elif ch.isspace():
+            out.append(u"_")
+    return u"".join(out)
+
+
 def outline_rows(ol):
     """Expand an outline into row scenarios (model side).  Returns list of dicts
     with id, name_core (outline name substituted), tags, steps, e, r."""
@@ -630,17 +651,27 @@ def outline_rows(ol):
     for e, ex in enumerate(ol["examples"]):
         for r, row in enumerate(ex["rows"]):
             hd = ex["headings"]
+            # the row's special placeholders (usable in tags and step names besides the name schema)
+            special = [("examples.name", substitute(ex["name"], hd, row)), ("examples.index", str(e + 1)),
+                       ("row.index", str(r + 1)), ("row.id", "%d.%d" % (e + 1, r + 1))]
+
+            def with_special(text):
+                for k, v in special:
+                    text = text.replace("<%s>" % k, v)
+                return text
             tags = []
             for t in ol["tags"]:
-                t2 = substitute(t, hd, row) if ("<" in t and ">" in t) else t
+                t2 = with_special(substitute(t, hd, row)) if ("<" in t and ">" in t) else t
                 if "<" in t2 and ">" in t2:
                     continue
+                if "<" in t and ">" in t:
+                    t2 = tag_safe_name(t2)      # only what was rendered from a template is translated
                 tags.append(t2)
             tags = tags + list(ex["tags"])
             steps = []
             for st in ol["steps"]:
                 s2 = dict(st)
-                s2["text"] = substitute(st["text"], hd, row)
+                s2["text"] = with_special(substitute(st["text"], hd, row))
                 if st.get("doc") is not None:
                     s2["doc"] = substitute(st["doc"], hd, row)
                 if st.get("table"):
@@ -718,7 +749,8 @@ def effective_tags(feat, rule, outline, scen):
 # script (what callbacks do) and configuration
 # ---------------------------------------------------------------------------
 OUTCOMES = ["ok", "assert", "exc", "notimpl", "kbi", "skip"]
-EXC_CLASSES = ["Exception", "ValueError", "RuntimeError", "KeyError", "ZeroDivisionError", "TimeoutError"]
+EXC_CLASSES = ["Exception", "ValueError", "RuntimeError", "KeyError", "ZeroDivisionError", "TimeoutError",
+               "NotImplementedError"]
 
 
 def gen_message(rng, hostile):
@@ -1093,6 +1125,10 @@ def gen_config(rng, world, dims):
     if dims.get("rec"):
         fmts.insert(0, ["rec", "out/rec_first.txt"])
         fmts.append(["rec", "out/rec_last.txt"])
+    cfg["short_outfiles"] = rng.random() < 0.4
+    if cfg["short_outfiles"]:
+        # fewer -o than -f: the formatters that write to stdout come last and get no -o at all
+        fmts = [f for f in fmts if f[1]] + [f for f in fmts if not f[1]]
     cfg["formatters"] = fmts
     if rng.random() < 0.2:
         cfg["logging_level"] = rng.choice(["DEBUG", "WARNING", "ERROR"])
@@ -1172,7 +1208,12 @@ def build_argv(world):
     for name, out in cfg["formatters"]:
         argv += ["-f", name]
     if any(out for _n, out in cfg["formatters"]):
-        for name, out in cfg["formatters"]:
+        outs = [out for _n, out in cfg["formatters"]]
+        if cfg.get("short_outfiles"):
+            # fewer -o than -f: the formatters without an outfile of their own write to stdout
+            while outs and not outs[-1]:
+                outs.pop()
+        for out in outs:
             argv += ["-o", out if out else "-"]
     if cfg["junit"]:
         argv += ["--junit", "--junit-directory", "reports"]
